@@ -17,8 +17,20 @@
    shares * 10^18).  The model receives from the source module only
    (user, pool, new shares, new total) and block times.
 
-   The last six fields of the state are history variables: they are only
+   The last nine fields of the state are history variables: they are only
    read to update themselves and never influence the other fields.
+
+   Besides the hook protocol (Change) the machine has
+     Revalue  a user's source shares move WITHOUT a hook call for that user
+              (staking: a third party's delegation to a slashed validator moves the
+              exchange rate of everybody's delegation shares; x/cdp and x/hard of
+              this tree call the hook before they synchronise interest, so their
+              messages need no revalue),
+     SetTotal the source total moves without a user position changing (interest),
+     BkAcc    accumulateBkavaEarnRewards for one bkava vault (proportional rate,
+              forwarded staking rewards),
+   and, one level up (xstep), SetParams: the reward periods and the claim end
+   are replaced (governance / committee parameter change).
    Definitions only. *)
 From Kava Require Import Base.Prelude Base.Dec Model.Accumulator.
 Local Open Scope Z_scope.
@@ -49,7 +61,10 @@ Record state := mkState {
   nsync : nat -> nat -> Z;            (* number of CalculateSingleReward roundings applied to the user's claim in that denom *)
   claimed : nat -> nat -> Z;          (* reward removed from the claim by claims *)
   emitted : nat -> Z;                 (* sum over accumulations of rate * whole seconds (when there were shares) *)
-  accslack : nat -> Z                 (* sum over those accumulations of the total source shares *)
+  accslack : nat -> Z;                (* sum over those accumulations of the total source shares *)
+  drift : nat -> nat -> Z;            (* user, denom: sum over the user's revalues of (global - user index) * (new - old shares) *)
+  overshare : nat -> Z;               (* denom: sum over accumulations of index increment * max(0, sum of user shares - total) *)
+  emitted_x : nat -> Z                (* denom, Dec mantissa: rewards of the bkava accumulations (proportional per-second rewards + staking rewards) *)
 }.
 
 (** * BeginBlocker *)
@@ -76,6 +91,12 @@ Definition pool_inc := pool_val new_reward.        (* increment of the global in
 Definition pool_emit := pool_val emitted_of.       (* reward counted as emitted *)
 Definition pool_slack := pool_val (fun rate T dur => if (0 <? emitted_of rate T dur) then T else 0).
 
+(* the side-condition of the over-distribution bound: sum of the users' shares <= total *)
+Definition shares_sum (e : env) (st : state) (p : nat) : Z := sumN (nusers e) (fun u => sh st u p).
+
+(* by how much the users' shares exceed the total the accumulation divides by *)
+Definition excess (e : env) (st : state) (p : nat) : Z := Z.max 0 (shares_sum e st p - tot st p).
+
 Definition block (e : env) (st : state) (t : Z) : outcome state unit :=
   if t <? now st then Err else
   if existsb (fun p => match pool_dur e st t p with None => true | Some _ => false end) (seq 0 (npools e))
@@ -89,7 +110,10 @@ Definition block (e : env) (st : state) (t : Z) : outcome state unit :=
         (fun u d => integral st u d + sumN (npools e) (fun p => pool_inc e st t p d * sh st u p))
         (due st) (nsync st) (claimed st)
         (fun d => emitted st d + sumN (npools e) (fun p => pool_emit e st t p d))
-        (fun d => accslack st d + sumN (npools e) (fun p => pool_slack e st t p d))) tt.
+        (fun d => accslack st d + sumN (npools e) (fun p => pool_slack e st t p d))
+        (drift st)
+        (fun d => overshare st d + sumN (npools e) (fun p => pool_inc e st t p d * excess e st p))
+        (emitted_x st)) tt.
 
 (** * Synchronisation *)
 
@@ -114,7 +138,7 @@ Definition sync_pool (st : state) (u p : nat) (s : Z) : state :=
                  then due st u d + (g_idx st p d - u_idx st u p d) * s
                  else due st u' d)
     (fun u' d => if Nat.eqb u' u then nsync st u d + 1 else nsync st u' d)
-    (claimed st) (emitted st) (accslack st).
+    (claimed st) (emitted st) (accslack st) (drift st) (overshare st) (emitted_x st).
 
 (* InitializeSwapReward: create the claim if needed, indexes := global *)
 Definition init_claim (st : state) (u p : nat) : state :=
@@ -122,7 +146,7 @@ Definition init_claim (st : state) (u p : nat) : state :=
     (fun u' => if Nat.eqb u' u then true else has_claim st u')
     (fun u' p' d => if Nat.eqb u' u && Nat.eqb p' p then g_idx st p d else u_idx st u' p' d)
     (rew st) (macc st) (bal st)
-    (integral st) (due st) (nsync st) (claimed st) (emitted st) (accslack st).
+    (integral st) (due st) (nsync st) (claimed st) (emitted st) (accslack st) (drift st) (overshare st) (emitted_x st).
 
 (* GetSynchronizedSwapClaim: every pool with the user's current shares *)
 Definition sync_all (e : env) (st : state) (u : nat) : state :=
@@ -137,7 +161,7 @@ Definition sync_all (e : env) (st : state) (u : nat) : state :=
                  then due st u d + sumN (npools e) (fun p => (g_idx st p d - u_idx st u p d) * sh st u p)
                  else due st u' d)
     (fun u' d => if Nat.eqb u' u then nsync st u d + Z.of_nat (npools e) else nsync st u' d)
-    (claimed st) (emitted st) (accslack st).
+    (claimed st) (emitted st) (accslack st) (drift st) (overshare st) (emitted_x st).
 
 (* what GetSynchronizedSwapClaim reports as the user's reward *)
 Definition pending (e : env) (st : state) (u d : nat) : Z :=
@@ -150,7 +174,7 @@ Definition set_shares (st : state) (u p : nat) (s T : Z) : state :=
     (fun p' => if Nat.eqb p' p then T else tot st p')
     (fun u' p' => if Nat.eqb u' u && Nat.eqb p' p then s else sh st u' p')
     (has_claim st) (u_idx st) (rew st) (macc st) (bal st)
-    (integral st) (due st) (nsync st) (claimed st) (emitted st) (accslack st).
+    (integral st) (due st) (nsync st) (claimed st) (emitted st) (accslack st) (drift st) (overshare st) (emitted_x st).
 
 Definition in_range (e : env) (u p : nat) : bool := Nat.ltb u (nusers e) && Nat.ltb p (npools e).
 
@@ -174,7 +198,68 @@ Definition set_total (e : env) (st : state) (p : nat) (T' : Z) : outcome state u
   Ok (mkState (now st) (g_time st) (g_idx st)
         (fun p' => if Nat.eqb p' p then T' else tot st p')
         (sh st) (has_claim st) (u_idx st) (rew st) (macc st) (bal st)
-        (integral st) (due st) (nsync st) (claimed st) (emitted st) (accslack st)) tt.
+        (integral st) (due st) (nsync st) (claimed st) (emitted st) (accslack st) (drift st) (overshare st) (emitted_x st)) tt.
+
+(** * Revalue: a user's source shares move without a hook call for that user
+
+   Nothing is synchronised: the claim keeps its indexes, so the next
+   synchronisation multiplies the whole index difference accrued since the
+   user's previous synchronisation by the NEW shares.  The history variable
+   [drift] records by how much that changes the user's entitlement. *)
+Definition revalue (e : env) (st : state) (u p : nat) (s' : Z) : outcome state unit :=
+  if negb (in_range e u p) then Err else
+  if s' <? 0 then Err else
+  if negb (has_claim st u) && negb (s' =? 0) then Err else
+  Ok (mkState (now st) (g_time st) (g_idx st) (tot st)
+        (fun u' p' => if Nat.eqb u' u && Nat.eqb p' p then s' else sh st u' p')
+        (has_claim st) (u_idx st) (rew st) (macc st) (bal st)
+        (integral st) (due st) (nsync st) (claimed st) (emitted st) (accslack st)
+        (fun u' d => if Nat.eqb u' u
+                     then drift st u d + (g_idx st p d - u_idx st u p d) * (s' - sh st u p)
+                     else drift st u' d)
+        (overshare st) (emitted_x st)) tt.
+
+(** * accumulateBkavaEarnRewards for one bkava vault (pool p)
+
+   The bkava reward period of the params is shared by every bkava-<validator>
+   vault, so it is not an entry of the period table ([periods e p = None]: the
+   ordinary accumulation skips the pool); the operation carries it, together
+   with what the keeper reads from x/liquid and x/distribution: the value v of
+   the vault's derivative denom, the value V of all derivative denoms, and the
+   staking rewards collected for the vault's validator (they are moved to the
+   incentive module account whether or not the vault has shares). *)
+Definition period_ok (nd : nat) (pd : period) : bool :=
+  (p_start pd <=? p_end pd) && forallb (fun d => 0 <=? p_rate pd d) (seq 0 nd).
+
+Definition bk_rw (e : env) (st : state) (p : nat) (pd : period) (v V : Z) (stk : nat -> Z) (dur : Z) (d : nat) : Z :=
+  if Nat.ltb d (ndenoms e) then bk_rewards (bk_rate (p_rate pd d) v V) dur (stk d) else 0.
+
+Definition bk_acc (e : env) (st : state) (p : nat) (pd : period) (v V : Z) (stk : nat -> Z) : outcome state unit :=
+  if negb (Nat.ltb p (npools e)) then Err else
+  match periods e p with
+  | Some _ => Err
+  | None =>
+    if negb (period_ok (ndenoms e) pd) || (v <? 0) || (V <? v)
+       || existsb (fun d => stk d <? 0) (seq 0 (ndenoms e)) then Err else
+    match elapsed_within (match g_time st p with Some x => x | None => now st end) (now st) (p_start pd) (p_end pd) with
+    | None => Panic
+    | Some dur =>
+      let rw := bk_rw e st p pd v V stk dur in
+      let inc := fun d => bk_increment (rw d) (tot st p) in
+      Ok (mkState (now st)
+            (fun p' => if Nat.eqb p' p then Some (Z.min (p_end pd) (now st)) else g_time st p')
+            (fun p' d => if Nat.eqb p' p then g_idx st p d + inc d else g_idx st p' d)
+            (tot st) (sh st) (has_claim st) (u_idx st) (rew st)
+            (fun d => macc st d + (if Nat.ltb d (ndenoms e) then stk d else 0))
+            (bal st)
+            (fun u d => integral st u d + inc d * sh st u p)
+            (due st) (nsync st) (claimed st) (emitted st)
+            (fun d => accslack st d + (if 0 <? bk_emitted (rw d) (tot st p) then tot st p else 0))
+            (drift st)
+            (fun d => overshare st d + inc d * excess e st p)
+            (fun d => emitted_x st d + bk_emitted (rw d) (tot st p))) tt
+    end
+  end.
 
 (** * Claim *)
 
@@ -200,7 +285,7 @@ Definition claim (e : env) (st : state) (u d : nat) (m : option Z) : outcome sta
           (fun u' d' => if Nat.eqb u' u && Nat.eqb d' d then bal st u d + pay else bal st u' d')
           (integral st1) (due st1) (nsync st1)
           (fun u' d' => if Nat.eqb u' u && Nat.eqb d' d then claimed st u d + amt else claimed st u' d')
-          (emitted st1) (accslack st1)) tt
+          (emitted st1) (accslack st1) (drift st1) (overshare st1) (emitted_x st1)) tt
   end.
 
 Inductive op :=
@@ -208,7 +293,9 @@ Inductive op :=
 | Change (u p : nat) (s' T' : Z)             (* source position of u in pool p becomes s', pool total T' *)
 | SetTotal (p : nat) (T' : Z)
 | Claim (u d : nat) (m : option Z)
-| Other (ok : bool).                         (* a source-module message that changes no position (trade), or a refused one *)
+| Other (ok : bool)                          (* a source-module message that changes no position (trade), or a refused one *)
+| Revalue (u p : nat) (s' : Z)               (* u's shares in pool p become s' without a hook call *)
+| BkAcc (p : nat) (pd : period) (v V : Z) (stk : list Z).  (* bkava vault p accumulates under period pd *)
 
 Definition step (e : env) (st : state) (o : op) : outcome state unit :=
   match o with
@@ -217,6 +304,8 @@ Definition step (e : env) (st : state) (o : op) : outcome state unit :=
   | SetTotal p T' => set_total e st p T'
   | Claim u d m => claim e st u d m
   | Other ok => if ok then Ok st tt else Err
+  | Revalue u p s' => revalue e st u p s'
+  | BkAcc p pd v V stk => bk_acc e st p pd v V (fun d => nth d stk 0)
   end.
 
 Definition step' (e : env) (st : state) (o : op) : state :=
@@ -227,14 +316,13 @@ Definition run (e : env) (st : state) (ops : list op) : state := fold_left (step
 Definition init (t0 : Z) (m0 : nat -> Z) (gt0 : nat -> option Z) (tot0 : nat -> Z) : state :=
   mkState t0 gt0 (fun _ _ => 0) tot0 (fun _ _ => 0) (fun _ => false)
     (fun _ _ _ => 0) (fun _ _ => 0) m0 (fun _ _ => 0)
-    (fun _ _ => 0) (fun _ _ => 0) (fun _ _ => 0) (fun _ _ => 0) (fun _ => 0) (fun _ => 0).
+    (fun _ _ => 0) (fun _ _ => 0) (fun _ _ => 0) (fun _ _ => 0) (fun _ => 0) (fun _ => 0)
+    (fun _ _ => 0) (fun _ => 0) (fun _ => 0).
 
 (* unsynchronised entitlement of u in reward denom d, exact (units 10^36) *)
 Definition phi (e : env) (st : state) (u d : nat) : Z :=
   sumN (npools e) (fun p => (g_idx st p d - u_idx st u p d) * sh st u p).
 
-(* the side-condition of the over-distribution bound *)
-Definition shares_sum (e : env) (st : state) (p : nat) : Z := sumN (nusers e) (fun u => sh st u p).
 
 (** * Correspondence-check support *)
 
@@ -293,8 +381,9 @@ Definition apply_obs (shadow : list Z) (o : obs) : list Z :=
   fold_left (fun l c => set_nth l (fst c) (snd c)) (o_changes o) shadow.
 
 (* boolean invariant evaluated on every model state of the correspondence run:
-   index coherence, signs, the exactness identity  due + phi = integral, the
-   rounding bound on credited rewards and the share-total side-condition *)
+   index coherence, signs, the exactness identity  due + phi = integral + drift,
+   the rounding bound on credited rewards, total = sum of shares for the
+   exact-total sources, and the emission bound with its explicit slack *)
 Definition inv_b (e : env) (st : state) : bool :=
   let us := seq 0 (nusers e) in
   let ps := seq 0 (npools e) in
@@ -305,14 +394,14 @@ Definition inv_b (e : env) (st : state) : bool :=
                       && forallb (fun d => (0 <=? u_idx st u p d) && (u_idx st u p d <=? g_idx st p d)) ds) ps
     && forallb (fun d =>
          (0 <=? rew st u d)
-         && (due st u d + phi e st u d =? integral st u d)
+         && (due st u d + phi e st u d =? integral st u d + drift st u d)
          && (2 * Z.abs ((rew st u d + claimed st u d) * PREC * PREC - due st u d)
                <=? nsync st u d * (PREC * PREC + PREC))) ds) us
-  && forallb (fun p => if exact_total e then shares_sum e st p =? tot st p
-                       else shares_sum e st p <=? tot st p) ps
-  && forallb (fun d => (0 <=? macc st d)
+  && forallb (fun p => if exact_total e then shares_sum e st p =? tot st p else true) ps
+  && forallb (fun d => (0 <=? macc st d) && (0 <=? overshare st d)
         && (2 * sumN (nusers e) (fun u => integral st u d)
-              <=? 2 * emitted st d * PREC * PREC + accslack st d)) ds.
+              <=? 2 * emitted st d * PREC * PREC + 2 * emitted_x st d * PREC + accslack st d
+                  + 2 * overshare st d)) ds.
 
 (* The state's fields are closures over the previous state; evaluating them
    after n steps walks n closures.  The checker therefore re-tabulates the
@@ -332,40 +421,87 @@ Definition retab (e : env) (st : state) : state :=
     (tab2 nu np (sh st)) (tab1 false nu (has_claim st)) (tab3 nu np nd (u_idx st))
     (tab2 nu nd (rew st)) (tab1 0 nd (macc st)) (tab2 nu nd (bal st))
     (tab2 nu nd (integral st)) (tab2 nu nd (due st)) (tab2 nu nd (nsync st)) (tab2 nu nd (claimed st))
-    (tab1 0 nd (emitted st)) (tab1 0 nd (accslack st)).
+    (tab1 0 nd (emitted st)) (tab1 0 nd (accslack st))
+    (tab2 nu nd (drift st)) (tab1 0 nd (overshare st)) (tab1 0 nd (emitted_x st)).
+
+(** * Parameter changes: the reward periods and the claim end are part of the
+       module's params; governance / a committee replaces them between blocks *)
+
+Definition nthZ (l : list Z) (i : nat) : Z := nth i l 0.
+
+Definition mk_period (start stop : Z) (rates : list Z) : period := mkPeriod start stop (nthZ rates).
+
+(* a period as the params carry it: start, end, rates per reward denom *)
+Definition raw_period : Type := (Z * Z * list Z)%type.
+
+(* MultiRewardPeriod.Validate / RewardPeriod.Validate: start <= end, valid (non-negative) coins *)
+Definition raw_ok (r : raw_period) : bool :=
+  let '(a, b, rates) := r in (a <=? b) && forallb (fun x => 0 <=? x) rates.
+
+Definition of_raw (r : raw_period) : period := let '(a, b, rates) := r in mk_period a b rates.
+
+Definition with_params (e : env) (pds : list (option raw_period)) (cend : Z) : env :=
+  mkEnv (nusers e) (npools e) (ndenoms e)
+        (fun p => match nth p pds None with Some r => Some (of_raw r) | None => None end)
+        cend (exact_total e).
+
+Record xstate := mkX { x_env : env; x_st : state }.
+
+Inductive xop :=
+| O (o : op)
+| SetParams (pds : list (option raw_period)) (cend : Z).
+
+Definition xstep (xs : xstate) (o : xop) : outcome xstate unit :=
+  match o with
+  | O o => match step (x_env xs) (x_st xs) o with
+           | Ok s' _ => Ok (mkX (x_env xs) s') tt
+           | Err => Err
+           | Panic => Panic
+           end
+  | SetParams pds cend =>
+      if forallb (fun r => match r with Some r => raw_ok r | None => true end) pds
+      then Ok (mkX (with_params (x_env xs) pds cend) (x_st xs)) tt
+      else Err
+  end.
+
+Definition xstep' (xs : xstate) (o : xop) : xstate :=
+  match xstep xs o with Ok s' _ => s' | _ => xs end.
+
+Definition xrun (xs : xstate) (ops : list xop) : xstate := fold_left xstep' ops xs.
 
 (* one step of the implementation can be several operations of the machine (a
    hard message synchronises every denom of the deposit; a block first moves the
-   totals by accrued interest): the operations run in sequence, all or nothing *)
-Fixpoint step_list (e : env) (st : state) (os : list op) : outcome state unit :=
+   totals by accrued interest, a cdp block first synchronises the riskiest cdps; an
+   earn block accumulates every bkava vault): the operations run in sequence, all or
+   nothing; the state is re-tabulated after every operation *)
+Fixpoint xstep_list (xs : xstate) (os : list xop) : outcome xstate unit :=
   match os with
-  | [] => Ok st tt
+  | [] => Ok xs tt
   | o :: r =>
-      match step e st o with
-      | Ok st1 _ => step_list e (retab e st1) r
+      match xstep xs o with
+      | Ok xs1 _ => xstep_list (mkX (x_env xs1) (retab (x_env xs1) (x_st xs1))) r
       | Err => Err
       | Panic => Panic
       end
   end.
 
-Fixpoint first_mismatch (e : env) (s : state) (shadow : list Z) (h : list (list op * obs)) (i : nat) : option nat :=
+Fixpoint first_mismatch (xs : xstate) (shadow : list Z) (h : list (list xop * obs)) (i : nat) : option nat :=
   match h with
   | [] => None
   | (os, ob) :: r =>
-      let res := step_list e s os in
-      let s' := retab e (match res with Ok s1 _ => s1 | _ => s end) in
+      let res := xstep_list xs os in
+      let xs1 := match res with Ok s1 _ => s1 | _ => xs end in
+      let e := x_env xs1 in
+      let s' := retab e (x_st xs1) in
       let shadow' := apply_obs shadow ob in
       if rclass_eqb (class_of res) (o_class ob)
          && list_eqb Z.eqb (project e s') shadow'
          && inv_b e s'
-      then first_mismatch e s' shadow' r (S i)
+      then first_mismatch (mkX e s') shadow' r (S i)
       else Some i
   end.
 
 (* list-based construction of environments from harness data *)
-Definition nthZ (l : list Z) (i : nat) : Z := nth i l 0.
-
-Definition mk_period (start stop : Z) (rates : list Z) : period := mkPeriod start stop (nthZ rates).
 
 Definition mk_env (nu np nd : nat) (pds : list (option period)) (cend : Z) (exact : bool) : env :=
   mkEnv nu np nd (fun p => nth p pds None) cend exact.
@@ -377,7 +513,7 @@ Record history := mkHist {
   h_gtime : list Z;                (* accrual times at the start (the test app runs one begin block at genesis), -1 = none *)
   h_tot : list Z;                  (* source totals at the start (delegator: the genesis validator's stake) *)
   h_init : list Z;                 (* the implementation's flat projection before the first operation *)
-  h_steps : list (list op * obs)
+  h_steps : list (list xop * obs)
 }.
 
 Definition check_history (h : history) : option nat :=
@@ -385,7 +521,7 @@ Definition check_history (h : history) : option nat :=
                  (fun p => let x := nth p (h_gtime h) (-1) in if x <? 0 then None else Some x)
                  (nthZ (h_tot h)) in
   if inv_b (h_env h) s0 && list_eqb Z.eqb (project (h_env h) s0) (h_init h)
-  then first_mismatch (h_env h) s0 (h_init h) (h_steps h) 0
+  then first_mismatch (mkX (h_env h) s0) (h_init h) (h_steps h) 0
   else Some 0%nat.
 
 Fixpoint mismatches_from (i : nat) (hs : list history) : list (nat * nat) :=
